@@ -1,6 +1,8 @@
-(* C10: the leader's slice builder (Model/Producer.v) never underflows on transactions within the
-   documented limit, and exactly which streams make it panic. *)
-From Coq Require Import List NArith Bool Lia ZifyBool ZifyN.
+(* C10: the leader's slice builder (Model/Producer.v).
+   Current tree: never panics for ANY transaction stream, its slice always fits MAX_DATA_PER_SLICE, and what it
+   contains is exactly the in-limit transactions among those consumed; apply_parent_ready is total.
+   Pinned tree: safe only for transactions within the limit; exactly which streams made it panic; witnesses. *)
+From Coq Require Import List NArith Bool Lia ZifyBool ZifyN ZifyNat.
 From AG Require Import Gen.Params Model.Producer.
 Import ListNotations.
 Open Scope N_scope.
@@ -10,16 +12,86 @@ Proof. intros [|]; vm_compute; reflexivity. Qed.
 Lemma buffer_space_room : forall hp, MAX_TRANSACTION_SIZE + 8 + 8 <= buffer_space hp.
 Proof. intros [|]; vm_compute; discriminate. Qed.
 
-(* loop invariant: at the head of the loop a maximal transaction still fits *)
-Lemma produce_safe_gen : forall space txs len used,
+Definition total (l : list N) : N := fold_right (fun q a => tx_encoded q + a) 0 l.
+Lemma total_cons p l : total (p :: l) = tx_encoded p + total l. Proof. reflexivity. Qed.
+Lemma total_nil : total [] = 0. Proof. reflexivity. Qed.
+Definition in_limit (p : N) : bool := p <=? MAX_TRANSACTION_SIZE.
+
+Lemma filter_in p l : p <= MAX_TRANSACTION_SIZE -> filter in_limit (p :: l) = p :: filter in_limit l.
+Proof. intros H. cbn [filter]. unfold in_limit at 1. assert ((p <=? MAX_TRANSACTION_SIZE) = true) as -> by lia. reflexivity. Qed.
+Lemma filter_out p l : MAX_TRANSACTION_SIZE < p -> filter in_limit (p :: l) = filter in_limit l.
+Proof. intros H. cbn [filter]. unfold in_limit at 1. assert ((p <=? MAX_TRANSACTION_SIZE) = false) as -> by lia. reflexivity. Qed.
+
+(* ---------------- current tree: total, and what the slice contains ---------------- *)
+(* loop invariant: at the head of the loop a maximal in-limit transaction still fits *)
+Lemma produce_spec_gen : forall space txs len count consumed,
   MAX_TRANSACTION_SIZE + 8 <= space - len -> len <= space ->
-  Forall (fun p => p <= MAX_TRANSACTION_SIZE) txs ->
-  match produce space len used txs with
+  exists (full : bool) (j : nat),
+    produce_gen true space len count consumed txs =
+      (if full then PFull else PTimeout)
+        (len + total (filter in_limit (firstn j txs)))
+        (count + N.of_nat (length (filter in_limit (firstn j txs))))
+        (consumed + N.of_nat j) /\
+    (j <= length txs)%nat /\ (full = false -> j = length txs) /\
+    len + total (filter in_limit (firstn j txs)) <= space /\
+    (full = true -> space - (len + total (filter in_limit (firstn j txs))) < MAX_TRANSACTION_SIZE + 8).
+Proof.
+  intros space txs. induction txs as [|p rest IH]; intros len count consumed Hroom Hle; cbn [produce_gen].
+  - exists false, O. cbn [firstn filter length total fold_right]. rewrite !N.add_0_r. repeat split; try lia; try discriminate.
+  - cbn [andb]. destruct (MAX_TRANSACTION_SIZE <? p) eqn:E0.
+    + destruct (IH len count (consumed + 1) Hroom Hle) as [full [j [E [Hj [Hf [Hs Hr]]]]]].
+      exists full, (S j). cbn [firstn]. rewrite filter_out by lia.
+      rewrite E. split; [destruct full; f_equal; lia|]. cbn [length]. repeat split; try lia; auto; try (intros H; specialize (Hf H); lia).
+    + unfold tx_encoded. destruct (space <? len + (8 + p)) eqn:E1; [lia|].
+      destruct (space - (len + (8 + p)) <? MAX_TRANSACTION_SIZE + 8) eqn:E2.
+      * exists true, 1%nat. cbn [firstn]. rewrite filter_in by lia. cbn [filter length]. rewrite total_cons, total_nil. unfold tx_encoded.
+        split; [f_equal; lia|]. repeat split; try lia; try discriminate.
+      * destruct (IH (len + (8 + p)) (count + 1) (consumed + 1) ltac:(lia) ltac:(lia)) as [full [j [E [Hj [Hf [Hs Hr]]]]]].
+        exists full, (S j). cbn [firstn]. rewrite filter_in by lia. cbn [length]. rewrite total_cons. unfold tx_encoded.
+        rewrite E. split; [destruct full; f_equal; lia|].
+        repeat split; try lia; try (intros H; specialize (Hf H); lia); try (intros H; specialize (Hr H); lia).
+Qed.
+
+(* never a panic, for ANY stream of transactions (payloads of any length), with or without a parent;
+   the buffer stays within the reserved space and the slice within the shredder's limit *)
+Theorem produce_slice_never_panics : forall hp txs,
+  match produce_slice hp txs with
   | PPanic => False
-  | PFull l _ | PTimeout l => l <= space
+  | PFull l _ _ | PTimeout l _ _ => l <= buffer_space hp /\ slice_payload_len hp l <= MAX_DATA_PER_SLICE /\ shred_accepts hp l = true
   end.
 Proof.
-  intros space txs. induction txs as [|p rest IH]; intros len used Hroom Hle Hall; cbn [produce].
+  intros hp txs. unfold produce_slice, produce_slice_gen.
+  pose proof (buffer_space_room hp) as Hr. pose proof (buffer_space_val hp) as Hv.
+  destruct (produce_spec_gen (buffer_space hp) txs 8 0 0 ltac:(lia) ltac:(lia)) as [full [j [E [_ [_ [Hs _]]]]]].
+  rewrite E. destruct full; unfold shred_accepts, slice_payload_len; (split; [exact Hs|split; lia]).
+Qed.
+
+(* what it built: the in-limit transactions among the consumed ones, in order; the count is their number; the
+   loop stops exactly when fewer than MAX_TRANSACTION_SIZE + 8 bytes are left, otherwise it consumes everything *)
+Theorem produce_slice_contents : forall hp txs,
+  exists (full : bool) (k : N),
+    produce_slice hp txs = (if full then PFull else PTimeout) (8 + total (accepted k txs)) (N.of_nat (length (accepted k txs))) k /\
+    k <= N.of_nat (length txs) /\ (full = false -> k = N.of_nat (length txs)) /\
+    (full = true -> buffer_space hp - (8 + total (accepted k txs)) < MAX_TRANSACTION_SIZE + 8).
+Proof.
+  intros hp txs. unfold produce_slice, produce_slice_gen.
+  pose proof (buffer_space_room hp) as Hr.
+  destruct (produce_spec_gen (buffer_space hp) txs 8 0 0 ltac:(lia) ltac:(lia)) as [full [j [E [Hj [Hf [_ Hfull]]]]]].
+  exists full, (N.of_nat j). unfold accepted. rewrite Nat2N.id. fold in_limit.
+  change (fun p : N => p <=? MAX_TRANSACTION_SIZE) with in_limit.
+  rewrite E. split; [reflexivity|]. split; [lia|]. split; [intros H; rewrite (Hf H); reflexivity|exact Hfull].
+Qed.
+
+(* ---------------- pinned tree ---------------- *)
+Lemma produce_pinned_safe_gen : forall space txs len count consumed,
+  MAX_TRANSACTION_SIZE + 8 <= space - len -> len <= space ->
+  Forall (fun p => p <= MAX_TRANSACTION_SIZE) txs ->
+  match produce_gen false space len count consumed txs with
+  | PPanic => False
+  | PFull l _ _ | PTimeout l _ _ => l <= space
+  end.
+Proof.
+  intros space txs. induction txs as [|p rest IH]; intros len count consumed Hroom Hle Hall; cbn [produce_gen andb].
   - exact Hle.
   - inversion Hall as [|? ? Hp Hrest]; subst. unfold tx_encoded.
     destruct (space <? len + (8 + p)) eqn:E1; [lia|].
@@ -27,26 +99,22 @@ Proof.
     apply IH; [lia|lia|exact Hrest].
 Qed.
 
-Theorem produce_slice_safe : forall hp txs,
+Theorem produce_slice_pinned_safe : forall hp txs,
   Forall (fun p => p <= MAX_TRANSACTION_SIZE) txs ->
-  match produce_slice hp txs with
+  match produce_slice_pinned hp txs with
   | PPanic => False
-  | PFull l _ | PTimeout l => l <= buffer_space hp /\ shred_accepts hp l = true
+  | PFull l _ _ | PTimeout l _ _ => l <= buffer_space hp /\ shred_accepts hp l = true
   end.
 Proof.
-  intros hp txs Hall. unfold produce_slice.
+  intros hp txs Hall. unfold produce_slice_pinned, produce_slice_gen.
   pose proof (buffer_space_room hp) as Hr. pose proof (buffer_space_val hp) as Hv.
-  pose proof (produce_safe_gen (buffer_space hp) txs 8 0) as H.
-  assert (H1 : MAX_TRANSACTION_SIZE + 8 <= buffer_space hp - 8) by lia.
-  assert (H2 : 8 <= buffer_space hp) by lia.
-  specialize (H H1 H2 Hall).
-  destruct (produce (buffer_space hp) 8 0 txs); [exact H| |];
+  pose proof (produce_pinned_safe_gen (buffer_space hp) txs 8 0 0 ltac:(lia) ltac:(lia) Hall) as H.
+  destruct (produce_gen false (buffer_space hp) 8 0 0 txs); [exact H| |];
     (split; [exact H|unfold shred_accepts, slice_payload_len; lia]).
 Qed.
 
-(* conversely: a panic needs a transaction above the limit *)
-Theorem produce_slice_panic_needs_oversize : forall hp txs,
-  produce_slice hp txs = PPanic -> Exists (fun p => MAX_TRANSACTION_SIZE < p) txs.
+Theorem produce_slice_pinned_panic_needs_oversize : forall hp txs,
+  produce_slice_pinned hp txs = PPanic -> Exists (fun p => MAX_TRANSACTION_SIZE < p) txs.
 Proof.
   intros hp txs H.
   assert (D : Forall (fun p => p <= MAX_TRANSACTION_SIZE) txs \/ Exists (fun p => MAX_TRANSACTION_SIZE < p) txs).
@@ -55,22 +123,18 @@ Proof.
     - destruct IH as [IH|IH]; [left; constructor; [lia|exact IH]|right; apply Exists_cons_tl; exact IH].
     - right. apply Exists_cons_hd. lia. }
   destruct D as [Hall|Hex]; [|exact Hex].
-  pose proof (produce_slice_safe hp txs Hall) as S. rewrite H in S. destruct S.
+  pose proof (produce_slice_pinned_safe hp txs Hall) as S. rewrite H in S. destruct S.
 Qed.
 
-(* what the panic is, exactly: the buffer grew beyond the reserved space *)
-Definition total (l : list N) : N := fold_right (fun q a => tx_encoded q + a) 0 l.
-Lemma total_cons p l : total (p :: l) = tx_encoded p + total l. Proof. reflexivity. Qed.
-Lemma total_nil : total [] = 0. Proof. reflexivity. Qed.
-
-Theorem produce_panics_iff : forall space txs len used,
-  produce space len used txs = PPanic <->
+(* what the pinned panic was, exactly: the buffer grew beyond the reserved space *)
+Theorem produce_pinned_panics_iff : forall space txs len count consumed,
+  produce_gen false space len count consumed txs = PPanic <->
   exists pre p post, txs = pre ++ p :: post /\
     space < len + total pre + tx_encoded p /\
     (forall k, (k <= length pre)%nat -> k <> O ->
        MAX_TRANSACTION_SIZE + 8 <= space - (len + total (firstn k pre)) /\ len + total (firstn k pre) <= space).
 Proof.
-  intros space txs. induction txs as [|p rest IH]; intros len used; cbn [produce].
+  intros space txs. induction txs as [|p rest IH]; intros len count consumed; cbn [produce_gen andb].
   - split; [discriminate|]. intros [pre [q [post [E _]]]]. destruct pre; discriminate.
   - split.
     + destruct (space <? len + tx_encoded p) eqn:E1.
@@ -96,63 +160,41 @@ Proof.
         cbn [firstn] in Hpre. rewrite total_cons in Hpre. lia.
 Qed.
 
-(* ---- the defect: transactions the wire format admits (payload up to MTU - 8 bytes) crash the builder ---- *)
+(* the pinned defect: transactions the wire format admits (payload up to MTU - 8 bytes) crashed the builder;
+   the current tree builds a slice from the same streams *)
 Definition oversize_witness : list N := repeat 512 61 ++ [1100].
-Theorem produce_slice_oversize_refuted :
+Theorem produce_slice_pinned_oversize_refuted :
   Forall (fun p => tx_encoded p <= MTU_BYTES) oversize_witness /\
-  produce_slice false oversize_witness = PPanic /\ produce_slice true oversize_witness = PPanic.
+  produce_slice_pinned false oversize_witness = PPanic /\ produce_slice_pinned true oversize_witness = PPanic /\
+  produce_slice false oversize_witness = PTimeout 31728 61 62.
 Proof.
-  split; [|split; vm_compute; reflexivity].
+  split; [|repeat split; vm_compute; reflexivity].
   unfold oversize_witness. apply Forall_app. split.
   - apply Forall_forall. intros x Hx. apply repeat_spec in Hx. subst. vm_compute. discriminate.
   - constructor; [vm_compute; discriminate|constructor].
 Qed.
-(* a flood of maximal datagrams panics every slice that receives 22 of them, whatever came before is irrelevant:
-   from a fresh buffer, with or without a parent field *)
-Theorem produce_slice_flood_refuted : forall hp, produce_slice hp (repeat (MTU_BYTES - 8) 22) = PPanic.
-Proof. intros [|]; vm_compute; reflexivity. Qed.
+Theorem produce_slice_pinned_flood_refuted : forall hp,
+  produce_slice_pinned hp (repeat (MTU_BYTES - 8) 22) = PPanic /\ produce_slice hp (repeat (MTU_BYTES - 8) 22) = PTimeout 8 0 22.
+Proof. intros [|]; vm_compute; split; reflexivity. Qed.
 
-(* ---- the proposed repair (drop transactions above the limit) is total ---- *)
-Lemma produce_fixed_safe_gen : forall space txs len used,
-  MAX_TRANSACTION_SIZE + 8 <= space - len -> len <= space ->
-  match produce_fixed space len used txs with
-  | PPanic => False
-  | PFull l _ | PTimeout l => l <= space
-  end.
-Proof.
-  intros space txs. induction txs as [|p rest IH]; intros len used Hroom Hle; cbn [produce_fixed].
-  - exact Hle.
-  - destruct (MAX_TRANSACTION_SIZE <? p) eqn:E0; [apply IH; assumption|]. unfold tx_encoded.
-    destruct (space <? len + (8 + p)) eqn:E1; [lia|].
-    destruct (space - (len + (8 + p)) <? MAX_TRANSACTION_SIZE + 8) eqn:E2; [lia|].
-    apply IH; lia.
-Qed.
-Theorem produce_slice_fixed_total : forall hp txs,
-  match produce_slice_fixed hp txs with
-  | PPanic => False
-  | PFull l _ | PTimeout l => l <= buffer_space hp /\ shred_accepts hp l = true
-  end.
-Proof.
-  intros hp txs. unfold produce_slice_fixed.
-  pose proof (buffer_space_room hp) as Hr. pose proof (buffer_space_val hp) as Hv.
-  pose proof (produce_fixed_safe_gen (buffer_space hp) txs 8 0 ltac:(lia) ltac:(lia)) as H.
-  destruct (produce_fixed (buffer_space hp) 8 0 txs); [exact H| |];
-    (split; [exact H|unfold shred_accepts, slice_payload_len; lia]).
-Qed.
+(* ---------------- optimistic handover ---------------- *)
+Theorem apply_parent_ready_total : forall o r, apply_parent_ready o r <> AprPanic.
+Proof. intros o r. unfold apply_parent_ready, apply_parent_ready_gen. destruct (_ =? _); cbn; discriminate. Qed.
+Theorem apply_parent_ready_spec : forall o r,
+  apply_parent_ready o r = if snd r =? snd o then AprKeep else AprSwitch r.
+Proof. intros o r. unfold apply_parent_ready, apply_parent_ready_gen. destruct (_ =? _); reflexivity. Qed.
 
-(* ---- optimistic handover ---- *)
-Theorem apply_parent_ready_panics_iff : forall o r,
-  apply_parent_ready o r = AprPanic <-> (fst r = fst o /\ snd r <> snd o).
+Theorem apply_parent_ready_pinned_panics_iff : forall o r,
+  apply_parent_ready_pinned o r = AprPanic <-> (fst r = fst o /\ snd r <> snd o).
 Proof.
-  intros [os oh] [rs rh]. unfold apply_parent_ready. cbn [fst snd].
+  intros [os oh] [rs rh]. unfold apply_parent_ready_pinned, apply_parent_ready_gen. cbn [fst snd negb andb].
   destruct (rh =? oh) eqn:E1; [split; [discriminate|intros [_ H]; apply N.eqb_eq in E1; congruence]|].
   destruct (rs =? os) eqn:E2.
   - split; [intros _; split; [apply N.eqb_eq, E2|apply N.eqb_neq, E1]|reflexivity].
   - split; [discriminate|intros [H _]; apply N.eqb_neq in E2; congruence].
 Qed.
-(* two certified blocks in the last slot of the previous window (an equivocating leader): the block the
-   next leader holds and the one the ParentReady names differ only in their hash *)
-Theorem apply_parent_ready_equivocation_refuted : apply_parent_ready (11, 1) (11, 2) = AprPanic.
-Proof. reflexivity. Qed.
-Theorem apply_parent_ready_fixed_total : forall o r, apply_parent_ready_fixed o r <> AprPanic.
-Proof. intros o r. unfold apply_parent_ready_fixed. destruct (_ =? _); discriminate. Qed.
+(* two certified blocks in the last slot of the previous window (an equivocating leader): the block the next leader
+   holds and the one the ParentReady names differ only in their hash *)
+Theorem apply_parent_ready_pinned_equivocation_refuted :
+  apply_parent_ready_pinned (11, 1) (11, 2) = AprPanic /\ apply_parent_ready (11, 1) (11, 2) = AprSwitch (11, 2).
+Proof. split; reflexivity. Qed.
